@@ -1,6 +1,8 @@
 import GqlVerif.Props.C03
 import GqlVerif.Proofs.C01EndToEnd
 import GqlVerif.Proofs.C01AbstractI
+import GqlVerif.Proofs.C01RecursiveE
+import GqlVerif.Proofs.C01RecursiveV
 open GqlVerif.C03
 #print axioms ok_iff_accepts
 #print axioms null_at_non_null_rejected
@@ -35,3 +37,7 @@ open GqlVerif.C03
 #print axioms GqlVerif.C01.E2E.abs_tag_int_direct_rejected
 #print axioms GqlVerif.C01.E2E.fragment_precise_iff
 #print axioms GqlVerif.C01.E2E.fragment_precise
+-- recursive fragments (Proofs/C01Recursive*.lean)
+#print axioms GqlVerif.C01.E2E.recfragment_precise_iff
+#print axioms GqlVerif.C01.E2E.recfragment_precise
+#print axioms GqlVerif.C01.E2E.conformsLooseR_stable
